@@ -11,7 +11,8 @@ from . import dag as dagm, cf as cfm, smt, prove, trunc
 
 U = Fraction(1, 2 ** 53)
 TOL = Fraction(1, 10 ** 6)
-DECADES = [(Fraction(3, 2 * 10 ** 7), Fraction(1, 10 ** 6)), (Fraction(1, 10 ** 6), Fraction(1, 10 ** 5)), (Fraction(1, 10 ** 5), Fraction(1, 10 ** 4)),
+DECADES = [(Fraction(23, 10 ** 15), Fraction(1, 10 ** 12)), (Fraction(1, 10 ** 12), Fraction(1, 10 ** 10)), (Fraction(1, 10 ** 10), Fraction(1, 10 ** 8)), (Fraction(1, 10 ** 8), Fraction(149, 10 ** 9)),
+           (Fraction(149, 10 ** 9), Fraction(1, 10 ** 6)), (Fraction(1, 10 ** 6), Fraction(1, 10 ** 5)), (Fraction(1, 10 ** 5), Fraction(1, 10 ** 4)),
            (Fraction(1, 10 ** 4), Fraction(1, 10 ** 3)), (Fraction(1, 10 ** 3), Fraction(1, 10 ** 2)), (Fraction(1, 10 ** 2), Fraction(1, 10)), (Fraction(1, 10), Fraction(1))]
 
 def generic_path(entry, path):
@@ -60,6 +61,19 @@ def cond_path(entry, path, opts):
     sg = 'n%d' % ctx.sigma
     decl = ["(declare-fun n%d () Real)" % a for a in sorted(ctx.angle)] + ["(define-fun absr ((x Real)) Real (ite (>= x 0) x (- x)))"]
     base = trunc.enclosures(C, ctx)
+    for (a_, c_, b_, t_) in path.decisions:
+        va, vb = C.val[a_], C.val[b_]
+        sup = trunc.support(C, trunc.to_sigma(C, ctx, va[0])) | trunc.support(C, va[1]) | trunc.support(C, trunc.to_sigma(C, ctx, vb[0])) | trunc.support(C, vb[1])
+        if sup and sup <= ctx.angle:
+            va2 = (trunc.to_sigma(C, ctx, va[0]), va[1]); vb2 = (trunc.to_sigma(C, ctx, vb[0]), vb[1])
+            e_ = "(%s %s %s)" % (prove.CMP[c_], C.rat_smt(va2), C.rat_smt(vb2))
+            base.append(e_ if t_ else "(not %s)" % e_)
+    tol = Fraction(opts.get('cond_tol', TOL))
+    # decades excluded by the path condition (e.g. below the small-angle switch-over) are not obligations
+    regs = [["(< %s %s)" % (smt.rat(lo), sg), "(<= %s %s)" % (sg, smt.rat(hi))] for (lo, hi) in DECADES]
+    rf = smt.run_checks(decl, [('reg%d' % di, base + regs[di]) for di in range(len(DECADES))], per_check_ms=5000, jobs=4, tactic='qfnra-nlsat')
+    live = [di for di in range(len(DECADES)) if rf['reg%d' % di][0] != 'unsat']
+    res['decades_live'] = live
     atoms = [a for a in ctx.angle if entry.nodes[a].op in ('sin', 'cos', 'sqrt')]
     checks = []; meta = {}
     for nm, i in outs:
@@ -75,15 +89,15 @@ def cond_path(entry, path, opts):
                 res['notes'].append('%s: denominator depends on non-angle variables' % nm); continue
             parts = trunc.decompose(C, ctx, Kq)
             if any(any(entry.nodes[v].op != 'var' for v in m) for m, c in parts): continue
-            share = TOL / len(parts)
+            share = tol / len(parts)
             amp = 2 * U
             for k, (m, cpoly) in enumerate(parts):
                 fac = []
                 for v, e in m.items():
                     if v in ctx.small and ctx.small[v] == ctx.sigma: fac += [sg] * e
                 bound = "(* %s)" % ' '.join(['1'] + fac)
-                for di, (lo, hi) in enumerate(DECADES):
-                    reg = ["(< %s %s)" % (smt.rat(lo), sg), "(<= %s %s)" % (sg, smt.rat(hi))]
+                for di in live:
+                    reg = regs[di]
                     checks.append(('%s|%d|%d|%d' % (nm, a, k, di), base + reg + ["(> (* %s (absr %s) %s) (* %s (absr %s)))" % (smt.rat(amp), C.poly_smt(cpoly), bound, smt.rat(share), C.poly_smt(Dq))]))
             meta[(nm, a)] = len(parts)
     rs = smt.run_checks(decl, checks, per_check_ms=opts.get('cond_ms', 3000), jobs=opts.get('trunc_jobs', 12), tactic='qfnra-nlsat', chunk=16)
